@@ -55,7 +55,7 @@ CHECKS = {
         "model to the source text of calculate_new_target / select_block_height regenerated on every run, and the shipped "
         "constants are 10,080 / 1,209,600 / 30; the chain sampler always returns exactly the requested bytes.",
    note="Tie: translator + bridge lemmas for the arithmetic; differential check with header-rule mutants on chains crossing "
-        "retarget boundaries on both sides of forks (test period 3-6), incl. targets derived from the other branch, evidence sampled from a sibling branch, chains with a checkpoint horizon inside them and blocks that merely declare a height below it, every rejected block offered twice.",
+        "retarget boundaries on both sides of forks (test period 3-6), incl. targets derived from the other branch, evidence sampled from a sibling branch, chains with a checkpoint horizon inside them and blocks that merely declare a height below it, every rejected block offered twice; function level: calculate_new_target / select_block_height / validate_proof_of_work on the whole domain of the statement (every bit length of previous target incl. the top bit, elapsed 0 .. 2^64-1, id equal to / next to the target) against the statement's formula and the extracted model.",
    technique="Coq proof + translator bridge lemmas + extracted-model correspondence on header mutants",
    design="6/C05"),
  'C06': dict(
